@@ -202,6 +202,30 @@ fn main() {
             }
             continue;
         }
+        // capture mode: "C<TAB><json pattern><TAB><json text>..." -> {"c":[group 1 of the first match | null,...]}
+        if let Some(rest) = line.strip_prefix("C\t") {
+            let mut parts = rest.split('\t');
+            let pat = parts.next().and_then(unescape_json);
+            let re = pat.as_ref().and_then(|p| regex::Regex::new(p).ok());
+            match re {
+                None => {
+                    writeln!(out, "{{\"error\":\"bad pattern\"}}").unwrap();
+                }
+                Some(re) => {
+                    let res: Vec<String> = parts
+                        .map(|t| match unescape_json(t) {
+                            Some(tx) => match re.captures(&tx).and_then(|c| c.get(1).map(|m| m.as_str().to_string())) {
+                                Some(g) => esc(&g),
+                                None => "null".to_string(),
+                            },
+                            None => "null".to_string(),
+                        })
+                        .collect();
+                    writeln!(out, "{{\"c\":[{}]}}", res.join(",")).unwrap();
+                }
+            }
+            continue;
+        }
         let pat = match unescape_json(&line) {
             Some(p) => p,
             None => {
